@@ -6,8 +6,10 @@
  *            toggles ASAN_OPTIONS=malloc_fill_byte per pass
  *   keys     universe of store keys used for the projection, e.g. [[97],[98]]   ([] = none)
  * step:  expand <env> <input> = <ret> <state>
+ *        register <name> <kind> = <n> <state>      lifecycle: spifconf_register_builtin(name, function of kind 0|1|2)
  *   env    [[name],[value],[name],[value],...]  the complete environment of this call; the names @N and @V set the
- *                                               program name / version instead (defaults ap / 1.2)
+ *                                               program name / version instead (defaults ap / 1.2); @K adds a key to
+ *                                               the store projection for the rest of the script
  *   input  [c,c,...]                            the text (no NUL inside)
  *   ret    {claimed=T|F,outs=[[..],..],trunc=T|F,why=..}    or ?  (record)
  *   state  the store as [[[key],[value]],...] ascending by key, or UNKNOWN
@@ -40,6 +42,8 @@ typedef struct { unsigned char *p; size_t n; } bl_t;
 
 static int xr_pat = 0xAA;
 static bl_t xr_keys[XR_MAXL]; static int xr_nkeys;
+static bl_t xr_xkeys[XR_MAXL]; static int xr_nxkeys;      /* keys added to the universe by the running script (@K) */
+static int xr_nreg;                                         /* application built-ins registered by the running script */
 static FILE *xr_ulog;
 static char xr_msg[256];
 static vh_sb xr_laststate;
@@ -146,6 +150,16 @@ static void set_environment(const char *tok, unsigned long *h) {
         if (e[i].n == 2 && e[i].p[0] == '@' && (e[i].p[1] == 'N' || e[i].p[1] == 'V')) {
             if (e[i].p[1] == 'N') { libast_set_program_name((char *) e[i + 1].p); gotn = 1; }
             else { libast_set_program_version((char *) e[i + 1].p); gotv = 1; }
+        } else if (e[i].n == 2 && e[i].p[0] == '@' && e[i].p[1] == 'K') {
+            /* "@K": one more key of the store projection, for the rest of the script */
+            int k, have = 0;
+            for (k = 0; k < xr_nxkeys; k++) if (xr_xkeys[k].n == e[i + 1].n && !memcmp(xr_xkeys[k].p, e[i + 1].p, e[i + 1].n)) have = 1;
+            if (!have && xr_nxkeys < XR_MAXL) {
+                xr_xkeys[xr_nxkeys].n = e[i + 1].n;
+                xr_xkeys[xr_nxkeys].p = (unsigned char *) malloc(e[i + 1].n + 1);
+                memcpy(xr_xkeys[xr_nxkeys].p, e[i + 1].p, e[i + 1].n + 1);
+                xr_nxkeys++;
+            }
         } else
         setenv((char *) e[i].p, (char *) e[i + 1].p, 1);
         *h = fnv(fnv(*h, e[i].p, e[i].n + 1), e[i + 1].p, e[i + 1].n + 1);
@@ -168,26 +182,44 @@ static int has_put(const unsigned char *p, size_t n) {
     return 0;
 }
 
-/* projection of the store: %get(key) for every key of the universe */
+/* strcmp order (unsigned bytes), the order in which the store is kept */
+static int key_cmp(const void *a, const void *b) {
+    const bl_t *x = (const bl_t *) a, *y = (const bl_t *) b;
+    size_t m = x->n < y->n ? x->n : y->n; int c = memcmp(x->p, y->p, m);
+    return c ? c : (x->n < y->n ? -1 : x->n > y->n);
+}
+/* projection of the store: %get(key) for every key of the universe (command line + @K of this script), ascending */
 static size_t project_store(vh_sb *state) {
-    int i, first = 1; size_t foot = 0;
+    int i, first = 1, nk = 0; size_t foot = 0; bl_t all[2 * XR_MAXL];
+    for (i = 0; i < xr_nkeys; i++) all[nk++] = xr_keys[i];
+    for (i = 0; i < xr_nxkeys; i++) {
+        int k, have = 0;
+        for (k = 0; k < xr_nkeys; k++) if (xr_keys[k].n == xr_xkeys[i].n && !memcmp(xr_keys[k].p, xr_xkeys[i].p, xr_keys[k].n)) have = 1;
+        if (!have) all[nk++] = xr_xkeys[i];
+    }
+    qsort(all, (size_t) nk, sizeof(all[0]), key_cmp);
     sb_putc(state, '[');
-    for (i = 0; i < xr_nkeys; i++) {
+    for (i = 0; i < nk; i++) {
         unsigned char *blk = xr_block(); spif_charptr_t r; size_t n;
-        memset(blk, 0x5A, 64 + xr_keys[i].n);
-        memcpy(blk, "%get(", 5); memcpy(blk + 5, xr_keys[i].p, xr_keys[i].n); memcpy(blk + 5 + xr_keys[i].n, ")", 2);
+        memset(blk, 0x5A, 64 + all[i].n);
+        memcpy(blk, "%get(", 5); memcpy(blk + 5, all[i].p, all[i].n); memcpy(blk + 5 + all[i].n, ")", 2);
         { size_t hb = vh_heap(); r = spifconf_shell_expand((spif_charptr_t) blk); xr_growth += (long) vh_heap() - (long) hb; }
         if (r && (n = strlen((char *) blk)) > 0) {
             if (!first) sb_putc(state, ',');
             first = 0;
-            sb_putc(state, '['); sb_bytes(state, xr_keys[i].p, xr_keys[i].n); sb_putc(state, ',');
+            sb_putc(state, '['); sb_bytes(state, all[i].p, all[i].n); sb_putc(state, ',');
             sb_bytes(state, blk, n); sb_putc(state, ']');
-            foot += 3 * sizeof(void *) + xr_keys[i].n + 1 + n + 1;      /* spifconf_var_t + key + value */
+            foot += 3 * sizeof(void *) + all[i].n + 1 + n + 1;      /* spifconf_var_t + key + value */
         }
     }
     sb_putc(state, ']');
     return foot;
 }
+
+/* the application's built-ins (Expand.tla AppBuiltin): 0 copy of the argument, 1 NULL, 2 the constant "R" */
+static spif_charptr_t app_echo(spif_charptr_t p) { return p ? (spif_charptr_t) strdup((char *) p) : NULL; }
+static spif_charptr_t app_null(spif_charptr_t p) { (void) p; return NULL; }
+static spif_charptr_t app_const(spif_charptr_t p) { (void) p; return (spif_charptr_t) strdup("R"); }
 
 static int accepted(const bl_t *outs, int nouts, int trunc, const bl_t *res, int isnull) {
     int i;
@@ -200,7 +232,15 @@ static int accepted(const bl_t *outs, int nouts, int trunc, const bl_t *res, int
     return 0;
 }
 
-static void vh_begin(void) { sb_reset(&xr_laststate); xr_footprint = 0; xr_growth = 0; }
+static void vh_begin(void) {
+    sb_reset(&xr_laststate); xr_footprint = 0; xr_growth = 0;
+    while (xr_nxkeys > 0) free(xr_xkeys[--xr_nxkeys].p);
+    if (xr_nreg > 0) {            /* a fresh function table for every script */
+        spifconf_free_subsystem();
+        spifconf_init_subsystem();
+        xr_nreg = 0;
+    }
+}
 static void vh_end(void) { }
 
 static const char *vh_step(const vh_step_t *st, vh_sb *ret, vh_sb *state) {
@@ -210,6 +250,18 @@ static const char *vh_step(const vh_step_t *st, vh_sb *ret, vh_sb *state) {
     const char *vname[3] = {"", "", ""};
     long g0 = xr_growth; int in_copy_has_pct = 1;
 
+    if (!strcmp(st->op, "register") && st->nargs == 2) {
+        /* lifecycle step: register <name> <kind>; returns the number of application built-ins registered so far */
+        bl_t nm; int kind = atoi(st->args[1]);
+        if (parse_bytes(st->args[0], &nm)) return "bad-name-token";
+        spifconf_register_builtin((char *) nm.p, kind == 0 ? app_echo : kind == 1 ? app_null : app_const);
+        free(nm.p);
+        xr_nreg++;
+        sb_int(ret, xr_nreg);
+        if (st->exp_state[0] != '?' && !strcmp(st->exp_state, "UNKNOWN")) sb_puts(state, "UNKNOWN");
+        else { xr_footprint = project_store(state); sb_reset(&xr_laststate); sb_puts(&xr_laststate, state->p); }
+        return NULL;
+    }
     if (strcmp(st->op, "expand") || st->nargs != 2) return "bad-step";
     set_environment(st->args[0], &hin);
     if (parse_bytes(st->args[1], &in)) return "bad-input-token";
